@@ -97,7 +97,8 @@ class C20(Prop):
                 seen.add(tuple(sh))
                 out.append(dict(base, route="cli", shape=sh, spelling=("create", "new", "implicit")[(k + g) % 3],
                                 announce_flag=("-a", "--announce", "--tracker")[k % 3],
-                                magnet_flag=k % 4 == 1, pre=([], ["-q"], ["-v"])[k % 3]))
+                                magnet_flag=k % 4 == 1, pre=([], ["-q"], ["-v"])[k % 3],
+                                argform="eq" if (k + g) % 3 == 2 else "plain"))
         return out
 
     def corruptions(self, recs):
@@ -117,7 +118,7 @@ class C20(Prop):
     def nontrivial(self, case):
         if case["route"] == "cli" and case["shape"] and case["shape"][0] == "PATH":
             return None
-        return (case["group"], case["route"], tuple(case.get("shape", [])), case.get("announce_key"),
+        return (case["group"], case["route"], tuple(case.get("shape", [])), case.get("announce_key"), case.get("argform"),
                 case.get("explicit_false"), case.get("config_where"), case.get("spelling"), case.get("kw_str"),
                 case.get("config_layout"))
 
